@@ -1,0 +1,6 @@
+//go:build !verif
+// +build !verif
+
+package backend
+
+func verifPoint(owner interface{}, name string, arg uint64) {}
